@@ -73,6 +73,12 @@ pub struct Local {
 }
 
 impl Local {
+    /// distinct-outcome bookkeeping, bounded per worker (the count is a lower bound beyond that)
+    pub fn outcome(&mut self, k: u64) {
+        if self.outcomes.len() < 1_000_000 {
+            self.outcomes.insert(k);
+        }
+    }
     pub fn count(&mut self, k: &'static str) {
         *self.counts.entry(k).or_insert(0) += 1;
     }
@@ -124,7 +130,7 @@ where
                 let outcome = run_op(&b.screen, &op);
                 local.transitions += 1;
                 if let Ok((_, sn, _)) = &outcome {
-                    local.outcomes.insert(snap_key(sn));
+                    local.outcome(snap_key(sn));
                 }
                 let t = Trans {
                     columns: b.columns,
@@ -273,7 +279,7 @@ where
                 let outcome = run_op(&n.screen, &op);
                 local.transitions += 1;
                 if let Ok((_, sn, _)) = &outcome {
-                    local.outcomes.insert(snap_key(sn));
+                    local.outcome(snap_key(sn));
                 }
                 let t = Trans {
                     columns: b.columns,
